@@ -161,7 +161,9 @@ pub struct Shape {
 }
 
 fn cov_bytes(f: u8, a: u16, b: u16) -> Vec<u8> {
-    let ops = match f % 6 {
+    let ops = match f % 8 {
+        6 => vec![ROp::Loop(a, 65535), ROp::Hash(b), ROp::Noop], // body overruns the end of the program
+        7 => vec![ROp::Noop, ROp::Loop(3, 2), ROp::Loop(a, 50), ROp::Hash(b), ROp::Add], // inner body overruns the enclosing body
         5 => {
             // k nested loops of `a` iterations around one noop: weight ~ a^k, saturating from k = 8 at a = 65535
             let k = 1 + (b % 10) as usize;
